@@ -198,17 +198,17 @@ theorem err_shape (c : Cfg) (s : State) (t : Tok) (h : (stepCore c s t).1 = .err
   case genrolocked => left; exact newl _ _ _ _ _ h
   case failfrom k => simp at h
   case wprobe off =>
-    exfalso; revert h; unfold opWProbe; apply slot; intro sl
+    exfalso; revert h; unfold opWProbe; apply live _ _ _ (by simp); intro sl
     split
     · simp
     · split <;> simp
   case rprobe off =>
-    exfalso; revert h; unfold opRProbe; apply slot; intro sl
+    exfalso; revert h; unfold opRProbe; apply live _ _ _ (by simp); intro sl
     split
     · simp
     · split <;> simp
   case gprobe f =>
-    exfalso; revert h; unfold opGProbe; apply slot; intro sl
+    exfalso; revert h; unfold opGProbe; apply live _ _ _ (by simp); intro sl
     split
     · simp
     · simp only []; repeat' split
